@@ -4120,6 +4120,8 @@ rfbSendServerCutTextUTF8(rfbScreenInfoPtr rfbScreen,char *str, int len, char *fa
             }
             UNLOCK(cl->sendMutex);
             rfbStatRecordMessageSent(cl, rfbServerCutText, sz_rfbServerCutTextMsg+len, sz_rfbServerCutTextMsg+len);
+        } else {
+            UNLOCK(cl->sendMutex);
         }
     }
     rfbReleaseClientIterator(iterator);
